@@ -292,3 +292,109 @@ def check_e2e_sweep(ctx, cases, ops):
         if bad:
             ctx.violation({"kind": "statement size sweep: " + bad, "q": c["q"], "n": c["n"], "out_head": out[:10]})
     return dict(done)
+
+
+# ---------------------------------------------------------------- reference renderings (independent of badwolf)
+# The strings the model compares are shipped by the harness (they are produced by badwolf calling Go's fmt / time).  So that a change
+# of the FORMATTING code itself (triple/literal/literal.go, Cell.String) cannot hide behind "model and implementation see the same
+# string", every literal and anchor cell is re-rendered here from its VALUE and compared with the shipped strings.
+import datetime as _dt
+from decimal import Decimal as _D
+
+
+def ref_float_cmp(bits):
+    f = float_of_bits(bits)
+    if f != f or f in (float("inf"), float("-inf")):
+        return None                                   # fmt pads Inf / NaN with spaces; not generated as data
+    return ('"%s"^^type:float64' % ("%032.6f" % f)).encode()
+
+
+def ref_float_str(bits):
+    f = float_of_bits(bits)
+    if f != f or f in (float("inf"), float("-inf")):
+        return None
+    # Go %v of a float64 = strconv 'g' with the shortest representation: exponent form iff exp < -4 or exp >= 6
+    r = repr(f)
+    m, _, e = r.partition("e")
+    d = _D(r)
+    exp = d.adjusted()
+    digits = "".join(map(str, d.as_tuple().digits)).rstrip("0") or "0"
+    sign = "-" if (d.is_signed()) else ""
+    if d == 0:
+        body = "0"
+    elif exp < -4 or exp >= 6:
+        mant = digits[0] + ("." + digits[1:] if len(digits) > 1 else "")
+        body = "%se%s%02d" % (mant, "-" if exp < 0 else "+", abs(exp))
+    elif exp >= len(digits) - 1:
+        body = digits + "0" * (exp - len(digits) + 1)
+    elif exp >= 0:
+        body = digits[:exp + 1] + "." + digits[exp + 1:]
+    else:
+        body = "0." + "0" * (-exp - 1) + digits
+    return ('"%s%s"^^type:float64' % (sign, body)).encode()
+
+
+def ref_time_str(ns, off):
+    ns, off = int(ns), int(off)
+    secs, frac = divmod(ns, 10 ** 9)
+    t = _dt.datetime(1970, 1, 1) + _dt.timedelta(seconds=secs + off)
+    s = "%04d-%02d-%02dT%02d:%02d:%02d" % (t.year, t.month, t.day, t.hour, t.minute, t.second)
+    if frac:
+        s += "." + ("%09d" % frac).rstrip("0")
+    if off == 0:
+        return (s + "Z").encode()
+    sign = "+" if off > 0 else "-"
+    a = abs(off)
+    return (s + "%s%02d:%02d" % (sign, a // 3600, (a % 3600) // 60)).encode()
+
+
+def cell_render_problem(c):
+    """None, or a description of the first shipped string of the cell that differs from the reference rendering of its value"""
+    if c["k"] == "t":
+        want = ref_time_str(c["ns"], c.get("off", 0))
+        if bytes.fromhex(c["str"]) != want:
+            return "anchor printed as %r, reference RFC3339Nano %r" % (bytes.fromhex(c["str"]), want)
+    if c["k"] == "l":
+        got_s, got_c = bytes.fromhex(c.get("str", "")), bytes.fromhex(c.get("cmp", ""))
+        t = c["t"]
+        if t == "int64":
+            v = int(c["v"])
+            ws = ('"%d"^^type:int64' % v).encode()
+            wc = ('"%s"^^type:int64' % ("%032d" % v)).encode()
+        elif t == "float64":
+            ws, wc = ref_float_str(c["v"]), ref_float_cmp(c["v"])
+        elif t == "bool":
+            ws = wc = ('"%s"^^type:bool' % c["v"]).encode()
+        elif t == "text":
+            ws = wc = b'"' + bytes.fromhex(c.get("v", "")) + b'"^^type:text'
+        else:
+            bs = bytes.fromhex(c.get("v", ""))
+            ws = wc = ('"[%s]"^^type:blob' % " ".join(str(b) for b in bs)).encode()
+        if ws is not None and got_s != ws:
+            return "literal printed as %r, reference %r" % (got_s, ws)
+        if wc is not None and got_c != wc:
+            return "comparable string %r, reference %r" % (got_c, wc)
+    return None
+
+
+def check_renderings(ctx, row_lists, what):
+    """row_lists: iterable of lists of rows (dicts binding -> cell); reports the first few cells whose strings are not the reference"""
+    seen, bad = set(), 0
+    for rows in row_lists:
+        for r in rows or []:
+            for c in r.values():
+                key = json.dumps(c, sort_keys=True)
+                if key in seen:
+                    continue
+                seen.add(key)
+                p = cell_render_problem(c)
+                if p:
+                    bad += 1
+                    if bad <= 3:
+                        ctx.violation({"kind": "a cell is not rendered as the reference formatting of its value (%s): %s" % (what, p), "cell": c})
+    return len(seen)
+
+
+def float_key6(bits):
+    """the value as %f shows it (six decimals, correctly rounded): what the known precision defect reduces a float64 to"""
+    return _D("%.6f" % float_of_bits(bits))
